@@ -79,6 +79,12 @@ def install_integer(reg):
                      modifies=[], assumed=BIGINT))
     reg.add(Contract(I + 'lcm', params={'term': 'int|' + OINT}, result=OINT,
                      ensures={'value': 'result._value == spec.keys.lcm(self._value, spec.keys.ival(term))'}, modifies=[], assumed=BIGINT))
+    reg.add(Contract('Crypto.Math._IntegerBase.IntegerBase._tonelli_shanks', params={'n': 'int|' + OINT, 'p': 'int|' + OINT},
+                     requires=['spec.keys.ival(p) > 2'],
+                     raises={'ValueError': ('iff', 'not spec.keys.is_square_mod(spec.keys.ival(n), spec.keys.ival(p))')}, result=OINT,
+                     ensures={'root': 'result._value == spec.keys.sqrt_mod(spec.keys.ival(n), spec.keys.ival(p))'}, modifies=[],
+                     assumed='Tonelli-Shanks for an odd prime p: a square root in [0, p) or ValueError for a non-residue (the function verifies '
+                             'root*root == n mod p itself before returning); ' + BIGINT))
     # Primality.test_probable_prime: COMPOSITE (0) / PROBABLY_PRIME (1) as the uninterpreted verdict of spec.keys; negative numbers are refused
     reg.add(Contract('Crypto.Math.Primality.test_probable_prime', params={'candidate': 'int|' + OINT, 'randfunc': 'any'},
                      raises={'ValueError': ('iff', 'spec.keys.ival(candidate) < 0')},
